@@ -722,7 +722,7 @@ def run(ctx):
     if ctx.quick:
         c2s(ctx, [year_range(1999, 2001), year_range(2099, 2101)], 10000, 3, 1000)     # upper-case letters for every third n
     else:
-        c2s(ctx, [(FIRST, LAST + 1)], 200000, 2, 40000)               # upper-case letters for every second n
+        c2s(ctx, [(FIRST, LAST + 1)], 200000, 2, 12000)               # upper-case letters for every second n
     ctx.exhaustive = False
     ctx.assumptions += [
         'bulk C2S observations are grouped before TLC sees them: business days by (weekday, n, days moved, time of day of the result), '
